@@ -1,4 +1,5 @@
 import Proofs.RenderTotal
+import Proofs.Tie.Render
 /-!
 # C19 — String and Dump are total on every packet value
 
